@@ -15,7 +15,7 @@ From Mant Require Import Prim.R Prim.Bytes.
 From Mant Require Properties.C01 Properties.C03 Properties.C05 Properties.C06 Properties.C08 Properties.C09
   Properties.C10 Properties.C11 Properties.C12 Properties.C13 Properties.C14 Properties.C15 Properties.C16 Properties.C20.
 From Mant Require Model.SmbTypes Model.SmbBlocks Model.SmbLayout Model.SmbSafe Model.SmbEnvelope Model.C07Known
-  Model.Llmnr Model.NbPacket Model.NbtFrame Gen.SmbLayouts Proofs.C07Smb Proofs.C07Proofs Proofs.C07Alloc.
+  Model.Llmnr Model.NbPacket Model.NbtFrame Model.SmbUtils Gen.SmbLayouts Proofs.C07Smb Proofs.C07Proofs Proofs.C07Alloc Proofs.C07Utils.
 Import ListNotations.
 Open Scope N_scope.
 
@@ -53,6 +53,33 @@ Theorem C07_smb_message : forall data,
   exists c, In c SmbLayouts.all_cmds /\ SmbAnalysis.string_mem (SmbLayout.cd_name c) C07Known.c07_unproved = true.
 Proof. exact C07Proofs.message_total_mod. Qed.
 Print Assumptions C07_smb_message.
+
+(* ------------------------------------------------------------------ *)
+(* commands/utils/utils.go: the null-terminated string helpers.  They are total functions (no slice expression
+   can fail after the fix ee86f41); what their callers rely on is that the offset returned never points past the
+   data, with or without a terminator - the decoders slice data[offset:] with it. *)
+Theorem C07_utils_unicode_offset : forall data, snd (SmbUtils.get_nt_unicode data) <= lenN data.
+Proof. exact C07Utils.nt_unicode_offset_in_range. Qed.
+Print Assumptions C07_utils_unicode_offset.
+
+Theorem C07_utils_string_offset : forall data, snd (SmbUtils.get_nt_string data) <= lenN data.
+Proof. exact C07Utils.nt_string_offset_in_range. Qed.
+Print Assumptions C07_utils_string_offset.
+
+Theorem C07_utils_unicode_within : forall data, lenN (fst (SmbUtils.get_nt_unicode data)) <= lenN data.
+Proof. exact C07Utils.nt_unicode_string_within. Qed.
+Print Assumptions C07_utils_unicode_within.
+
+(* and they read back what was written: a terminated string followed by anything *)
+Theorem C07_utils_unicode_roundtrip : forall s rest, C07Utils.units_ok s ->
+  SmbUtils.get_nt_unicode (s ++ 0 :: 0 :: rest) = (s, lenN s + 2).
+Proof. exact C07Utils.nt_unicode_roundtrip. Qed.
+Print Assumptions C07_utils_unicode_roundtrip.
+
+Theorem C07_utils_string_roundtrip : forall s rest, Forall (fun b => b <> 0) s ->
+  SmbUtils.get_nt_string (s ++ 0 :: rest) = (s, lenN s + 1).
+Proof. exact C07Utils.nt_string_roundtrip. Qed.
+Print Assumptions C07_utils_string_roundtrip.
 
 (* ------------------------------------------------------------------ *)
 (* Allocation in proportion to the input                               *)
